@@ -132,7 +132,7 @@ PROPS["C15"] = {
 PROPS["C14"] = {
     "families": ["C14"],
     "nontrivial": lambda line, out: out.startswith("ok"),
-    "rule": "300 (quick) / 6000 (thorough) random well-formed models (windows 1..9: cached, plain and tagged scorers; weight vectors of "
+    "rule": "300 (quick) / 2000 (thorough) random well-formed models (windows 1..9: cached, plain and tagged scorers; weight vectors of "
             "8 vs 9 entries with inner and trailing zeros; 0-4 tag models) as predictor pairs (original, serialize->deserialize with "
             "0-5 trailing bytes) observed on 3 texts each incl. tags and candidate scores; plus the outer record of the REAL "
             "serialised bytes decoded and re-encoded by the Lean envelope codec; non-trivial = distinct case whose predictors were built",
